@@ -366,6 +366,40 @@ func (vc *VC) floatBinop(op token.Token, x, y string, t types.Type, ni numInfo) 
 	boolT := types.Typ[types.Bool]
 	s := vc.isort(ni.bits)
 	b := fmt.Sprint(ni.bits)
+	// comparison of two literal bit patterns: decided here with the IEEE semantics (the comparison functions are
+	// otherwise uninterpreted)
+	if vc.mode == ModeInt {
+		if xl, ok1 := parseIntLit(x); ok1 && xl.IsUint64() {
+			if yl, ok2 := parseIntLit(y); ok2 && yl.IsUint64() {
+				var fx, fy float64
+				if ni.bits == 32 {
+					fx, fy = float64(math.Float32frombits(uint32(xl.Uint64()))), float64(math.Float32frombits(uint32(yl.Uint64())))
+				} else {
+					fx, fy = math.Float64frombits(xl.Uint64()), math.Float64frombits(yl.Uint64())
+				}
+				tf := func(v bool) (string, types.Type) {
+					if v {
+						return "true", boolT
+					}
+					return "false", boolT
+				}
+				switch op {
+				case token.LSS:
+					return tf(fx < fy)
+				case token.GTR:
+					return tf(fx > fy)
+				case token.LEQ:
+					return tf(fx <= fy)
+				case token.GEQ:
+					return tf(fx >= fy)
+				case token.EQL:
+					return tf(fx == fy)
+				case token.NEQ:
+					return tf(fx != fy)
+				}
+			}
+		}
+	}
 	switch op {
 	case token.ADD, token.SUB, token.MUL, token.QUO:
 		n := map[token.Token]string{token.ADD: "fadd", token.SUB: "fsub", token.MUL: "fmul", token.QUO: "fdiv"}[op] + b
@@ -513,7 +547,25 @@ func (vc *VC) intBinop(op token.Token, x, y string, t, yT types.Type, ni numInfo
 			}
 			return "(ite (>= " + x + " 0) (mod " + x + " " + y + ") (- (mod (- " + x + ") " + y + ")))", rt
 		}
-		return "(- " + x + " (* " + y + " " + vc.tdiv(x, y) + "))", rt
+		if !ni.signed {
+			// unsigned operands are non-negative: Go's remainder is the SMT (Euclidean) mod for every divisor > 0
+			// (divisor 0 panics in Go and never yields a value).  The range of the result is stated as a ground fact
+			// (true of SMT mod for every y > 0): solvers do not derive it reliably for a non-constant divisor.
+			m := "(mod " + x + " " + y + ")"
+			if !specMath && !strings.Contains(m, "q_") && !strings.Contains(m, "p_") && !strings.Contains(m, "l_") {
+				// (only for terms of executed code: contract expressions may mention bound variables)
+				vc.axiom("(=> (> " + y + " 0) (and (<= 0 " + m + ") (< " + m + " " + y + ")))")
+			}
+			return m, rt
+		}
+		// signed remainder with a variable divisor: x - y*tdiv(x, y) in general; for a non-negative dividend and a positive
+		// divisor (the common case: hash % len) that value is the SMT mod, stated first so that the linear case needs no
+		// nonlinear reasoning (same value in both branches)
+		m := "(mod " + x + " " + y + ")"
+		if !specMath && !strings.Contains(m, "q_") && !strings.Contains(m, "p_") && !strings.Contains(m, "l_") {
+			vc.axiom("(=> (> " + y + " 0) (and (<= 0 " + m + ") (< " + m + " " + y + ")))")
+		}
+		return "(ite (and (>= " + x + " 0) (> " + y + " 0)) " + m + " (- " + x + " (* " + y + " " + vc.tdiv(x, y) + ")))", rt
 	case token.AND:
 		if yIsLit {
 			if k, ok := maskBits(ylit); ok {
@@ -589,6 +641,10 @@ func (vc *VC) bitUF(op, x, y string, ni numInfo) string {
 		vc.declare(name, "(declare-fun "+name+" (Int Int) Int)")
 		if !ni.mathI {
 			vc.axiom("(forall ((a Int) (b Int)) (! " + vc.inRange("("+name+" a b)", ni.bits, ni.signed) + " :pattern ((" + name + " a b))))")
+		}
+		if op == "or" {
+			// a|b is zero exactly when both operands are zero (holds for every width, signed or unsigned)
+			vc.axiom("(forall ((a Int) (b Int)) (! (= (= (" + name + " a b) 0) (and (= a 0) (= b 0))) :pattern ((" + name + " a b))))")
 		}
 		if op == "and" {
 			vc.axiom("(forall ((a Int) (b Int)) (! (=> (>= b 0) (and (<= 0 (" + name + " a b)) (<= (" + name + " a b) b))) :pattern ((" + name + " a b))))")
